@@ -51,7 +51,9 @@ pub enum COp {
     Inc,
     /// the thread's local handle (kept across batches): inc_by each digit locally, then flush
     /// (`twice`: flush a second time right away, which must add nothing)
-    Batch { digits: Vec<usize>, twice: bool },
+    /// (`cloned`: a clone of the local handle taken while the batch is pending is flushed as well;
+    /// a clone starts empty, so that flush must add nothing)
+    Batch { digits: Vec<usize>, twice: bool, cloned: bool },
     Read(Via),
     Reset,
 }
@@ -151,6 +153,12 @@ impl LocalH {
         match self {
             LocalH::F(l) => l.flush(),
             LocalH::U(l) => l.flush(),
+        }
+    }
+    fn clone_handle(&self) -> LocalH {
+        match self {
+            LocalH::F(l) => LocalH::F(l.clone()),
+            LocalH::U(l) => LocalH::U(l.clone()),
         }
     }
 }
@@ -321,7 +329,7 @@ pub fn generate(rng: &mut Rng, job: &Job) -> Scenario {
                         let k = 2 + rng.usize_below(2);
                         let ds: Vec<usize> = (next_digit..next_digit + k).collect();
                         next_digit += k;
-                        ops.push(COp::Batch { digits: ds, twice: rng.chance(1, 3) });
+                        ops.push(COp::Batch { digits: ds, twice: rng.chance(1, 3), cloned: rng.chance(1, 3) });
                     }
                     _ => {
                         ops.push(COp::IncBy(next_digit));
@@ -362,7 +370,7 @@ pub fn scenario_json(sc: &Scenario) -> Json {
                     .map(|o| match o {
                         COp::IncBy(j) => Json::Str(format!("inc_by(4^{})", j)),
                         COp::Inc => Json::Str("inc()".into()),
-                        COp::Batch { digits, twice } => Json::Str(format!("local inc_by 4^{:?}; flush{}", digits, if *twice { "; flush" } else { "" })),
+                        COp::Batch { digits, twice, cloned } => Json::Str(format!("local inc_by 4^{:?}; {}flush{}", digits, if *cloned { "clone, flush the clone; " } else { "" }, if *twice { "; flush" } else { "" })),
                         COp::Read(v) => Json::Str(format!("read via {}", via_name(*v))),
                         COp::Reset => Json::Str("reset()".into()),
                     })
@@ -415,9 +423,13 @@ pub fn execute(sc: &Scenario, job: &Job, case: u64) -> Execution {
                 COp::Inc => {
                     sinks.call(tid, || world.handle().inc(), |_| CRec::Add { mask: 1, batch: false });
                 }
-                COp::Batch { digits, twice } => {
+                COp::Batch { digits, twice, cloned } => {
                     let l = local.get_or_insert_with(|| world.handle().local());
                     l.add(digits);
+                    if *cloned {
+                        let c = l.clone_handle();
+                        sinks.call(tid, || c.flush(), |_| CRec::Add { mask: 0, batch: true });
+                    }
                     let mut mask = 0u64;
                     for j in digits {
                         mask |= 1 << *j;
